@@ -17,19 +17,19 @@ import (
 )
 
 type Engine struct {
-	ctx      *Ctx
-	fset     *token.FileSet
-	pkgs     map[string]*packages.Package
-	allPkgs  []*packages.Package
-	cs       *Contracts
-	decls    map[string]*ast.FuncDecl
-	declPkg  map[string]*packages.Package
-	constG   map[*types.Var]int
-	assigned map[*types.Var]bool
-	repo     string
-	pureMemo map[string]bool
+	ctx       *Ctx
+	fset      *token.FileSet
+	pkgs      map[string]*packages.Package
+	allPkgs   []*packages.Package
+	cs        *Contracts
+	decls     map[string]*ast.FuncDecl
+	declPkg   map[string]*packages.Package
+	constG    map[*types.Var]int
+	assigned  map[*types.Var]bool
+	repo      string
+	pureMemo  map[string]bool
 	constInit map[*types.Var]types.TypeAndValue // package-level vars with a constant initialiser
-	nonNilG  map[*types.Var]bool // package-level vars initialised with &T{...} or a call of errors.New-like constructors
+	nonNilG   map[*types.Var]bool               // package-level vars initialised with &T{...} or a call of errors.New-like constructors
 }
 
 // PropConfig is one entry of /verif/props.json.
@@ -132,11 +132,18 @@ func main() {
 			}
 		}
 	}
-	solveAll(obligs, outDir, to, *tier == "thorough")
+	expectedFail := map[string]bool{}
+	for _, kf := range loadKnown(filepath.Join(*verif, "known_findings.json")) {
+		if kf.Property == *prop && kf.Status == "open" {
+			expectedFail[kf.Obligation] = true
+		}
+	}
+	solveAll(obligs, outDir, to, *tier == "thorough", expectedFail)
 	rep := buildReport(eng, cfg, *prop, *tier, obligs, funcs, outDir, *verif, *repo)
 	rep.LoadS = loadT.Seconds()
 	rep.GenS = genT.Seconds()
 	rep.WallS = time.Since(start).Seconds()
+	rep.start = start
 	if *list {
 		rep.printList()
 	}
